@@ -869,6 +869,14 @@ def c09(ctx):
                 ctx.check('disable-gate', ok, t.site(e),
                           'the lookup %s without having established that the command and its group are enabled'
                           % ('selects a command' if e['loc'] == ('S', 'cmd') else 'counts a candidate'))
+            # while the typed name is matched, a candidate influences the parser (implicit-write cut) only if enabled
+            if e['k'] == 'st' and e['loc'] == ('S', 'implicit_write_flag') and cval(e['val']) == 1:
+                idxv = t.pre.mem.get(('S', 'index'))
+                nm = 'CMDS[%s]' % (idxv,)
+                g = 'GRPS[%s]' % (idxv,)
+                ok = t.raw.facts.eq(Lin.atom(nm + '.disable'), 0) is True and t.raw.facts.eq(Lin.atom(g + '.disable'), 0) is True
+                ctx.check('disable-gate', ok, t.site(e),
+                          'a fully typed implicit-write name cuts the line short without the command and its group being known enabled')
             if e['k'] == 'cb' and e['kind'] in ('cmd.run', 'cmd.read', 'cmd.write', 'var.read', 'var.write'):
                 facts = e['facts'] if e['kind'].startswith('cmd.') else None
                 if facts is None:
